@@ -22,6 +22,7 @@ import time
 from .. import common
 from ..common import log
 from . import c03_asm
+from . import c03_names
 
 PROP = "C03"
 INC = os.path.join(common.REPO, "include")
@@ -840,6 +841,21 @@ def run(args):
         samples += ap["samples"]
         notes += ap["notes"]
 
+        # ------------------------------------------------------------------ asl half with a model, part 2: names built with {stringsymbol}
+        # (ExpandStrSymbol's buffer bound) and FUNCTION definitions / calls (vlib/props/c03_names.py, driver modes c03nam / c03fn)
+        t_np = time.time()
+        np_ = c03_names.run_part(args, flavours, wd, lambda *a, **k: run_limited(*a, out_max=60000, **k), parallel, drv_ok,
+                                 sigfn=lambda text, oc: asl_sig(dict(src=text), oc))
+        spec_fail += np_["spec_fail"]
+        corr_fail += np_["corr_fail"]
+        proof_problems += np_["problems"]
+        distinct |= np_["distinct"]
+        dist["names_functions"] = np_["dist"]
+        dist["names_functions_wall_s"] = round(time.time() - t_np, 2)
+        dist["asl_runs"] += np_["evaluations"]
+        samples += np_["samples"]
+        notes += np_["notes"]
+
         # ------------------------------------------------------------------ utilities (model + spec)
         guard, guard_res = probe_gran_guard(bdir, wd)
         notes.append("granularity-0 guard probe (witness file, per tool): %s -> model flags granCheck=%s" % (guard_res, guard))
@@ -1010,6 +1026,9 @@ def run(args):
         "environment flags 'errno stale at the magic / in the record loop', 'granularity guard', 'bytes wanted behind a data record' probed per tool)",
         "correspondence: real asl vs Model/SymStack (PUSHV/POPV histories: exit status + printed events, `asl -n -E !1`) and vs Model/BInclude "
         "(exit status, error numbers, code-file bytes), SPEC judgement by Spec/SymStack + Spec/BInclude on the real output (driver modes c03stk / c03bin)",
+        "correspondence: real asl vs Model/StrSymName (names built with {stringsymbol}: the expansion cut to STRINGSIZE-1, probed by definedness under the model's name and "
+        "under the name without its last character) and vs Model/UserFunc (FUNCTION: exit status, error numbers, printed values of calls), SPEC judgement by Spec/NameFunc "
+        "(driver modes c03nam / c03fn)",
         "EXPLORATION (not proof): asl/dasl robustness is only searched with generated inputs%s" % (" under clang-14 ASan+UBSan" if tier == "thorough" else " (plain build; sanitizer build in the thorough tier)")])
     res.coverage.update(
         partial=True,
@@ -1021,7 +1040,10 @@ def run(args):
              "histories = generated PUSHV/POPV programs (1-3 named stacks + default stack, variables / constants / undefined symbols, refused pops, pops from empty and "
              "non-existent stacks, REPT / IF / macro wrappers, case-sensitive runs), distinct by source text; BINCLUDE = file sizes 0/1/255/256/257/1000 x offset class "
              "{none, 0, inside, = size, > size, negative} x length class {none, 0, inside, to the end, beyond, negative, huge} x target / segment / origin / wrapper, plus "
-             "multi-statement programs inside their files (bytes compared) and mixed ones; INCLUDE of empty / binary / unterminated / self-including files and of path oddities" % (len(PSEUDO), 8),
+             "multi-statement programs inside their files (bytes compared) and mixed ones; INCLUDE of empty / binary / unterminated / self-including files and of path oddities; "
+             "names = one label / EQU / SECTION / macro / PUSHV-stack name per program built from 1-4 {symbol} expansions, literal text of 0..1100 characters around them, string symbols "
+             "of 0..1023 characters, totals sweeping STRINGSIZE-24..+76 and 2*STRINGSIZE-8..+12, malformed braces; functions = 1-3 FUNCTION definitions with 0-8 parameters (valid, duplicate, "
+             "over-long, empty, invalid names in every position), formulas over the parameters, calls with right / wrong argument counts, -U in a third of the programs" % (len(PSEUDO), 8),
         samples=samples, distribution=dist, builds=[f for f, _ in flavours])
     res.notes += notes
     res.assumptions = ["termination is claimed only for inputs without WHILE and without self-recursive macros; CPU limit %d s per asl run, %d s per utility run, output limit 8-64 MiB" % (cpu_asl, cpu_tool),
@@ -1038,6 +1060,8 @@ def replay(args):
     with common.Workdir("c03r") as wd:
         if d.get("part") == "c03asm":
             return c03_asm.replay_case(d, bdir, wd, lambda *a, **k: run_limited(*a, out_max=60000, **k))
+        if d.get("part") == "c03names":
+            return c03_names.replay_case(d, bdir, wd, lambda *a, **k: run_limited(*a, out_max=60000, **k))
         if "source" in d:
             c = dict(src=d["source"].encode("latin-1"), flags=d.get("flags", []), incdir=d.get("incdir"))
             oc = run_asl_case(bdir, wd, 0, c, 10)
